@@ -135,9 +135,22 @@ def ptype_of_node(node):
     return None
 
 
+def mul_table_name(repo):
+    """Name of the module-level multiplication table in plane.py: `_mul_ptype_table`, or - if it was renamed - the only
+    module-level dict literal that maps plane types to dicts of plane types."""
+    m = repo.modules['plane']
+    if isinstance(m.globals.get('_mul_ptype_table'), ast.Dict):
+        return '_mul_ptype_table'
+    cands = [nm for nm, node in m.globals.items() if isinstance(node, ast.Dict) and node.keys and
+             all(k is not None and ptype_of_node(k) for k in node.keys) and all(isinstance(v, ast.Dict) for v in node.values)]
+    if len(cands) == 1:
+        return cands[0]
+    raise AnalysisError('plane._mul_ptype_table: the multiplication table (a dict literal keyed by plane types) was not found')
+
+
 def code_mul_table(repo):
     m = repo.modules['plane']
-    node = m.globals.get('_mul_ptype_table')
+    node = m.globals.get(mul_table_name(repo))
     if not isinstance(node, ast.Dict):
         raise AnalysisError('plane._mul_ptype_table is not a dict literal')
     out = {}
